@@ -22,19 +22,23 @@ from ..model import macroexp
 ID = 'C11'
 LEVEL = 'exploration'
 RULE = ('case = one generated program (6502 byt/adr, Z80 db/dw or 68000 dc.w, with or without -U) with up to 3 levels of '
-        'construct nesting, macros with 0..20 parameters, repetition counts 0..40, IRPN groups 1..4 with ragged tails, '
-        'include files and binary includes, assembled once with the constructs and once as the hand expansion produced by the '
-        'reference model; non-trivial = the model carried out at least one construct and the expansion holds data; '
-        'distinct = distinct (target, case mode, sorted set of construct/argument features the model executed, size class)')
+        'construct nesting, macros with 0..20 parameters, repetition counts -3..40, IRPN groups 1..4 with ragged tails, '
+        'include files (also in sub-directories) and binary includes, assembled once with the constructs and once as the hand '
+        'expansion produced by the reference model; non-trivial = the model carried out at least one construct and the expansion '
+        'holds data; distinct = distinct (target, case mode, sorted set of construct/argument kinds the model executed, '
+        'number of constructs executed (capped at 12), size class of the code)')
 ASSUMPTIONS = [
     'the hand expansion is produced by vf/model/macroexp.py, written from the manual: simultaneous whole-name substitution '
     '(names delimited by non-alphanumerics, \\name\\ form), outer construct substitutes first, macro bodies read line by line',
-    'generated programs stay inside what the manual defines: no ARGCOUNT with fewer arguments than parameters or after SHIFT, '
-    'no ALLARGS together with keyword arguments, no forward reference to a private label that has a global namesake, '
-    'no reference from a nested construct to a private label of the enclosing one, arguments pasted into string context are '
-    'case-invariant, parameter names inside string constants are written in upper case when AS is not case-sensitive',
+    'generated programs stay inside what the manual defines: no ARGCOUNT with fewer arguments than parameters or after SHIFT '
+    '(manual and t_macargs.ori disagree), no ALLARGS together with keyword arguments, no use of a parameter that SHIFT has left '
+    'without an argument, no reference from a nested construct to a private label of the enclosing one, {GLOBALSYMBOLS} only where '
+    'every enclosing level is global too, EXITM only in MACRO/REPT/IRP/WHILE, arguments pasted into string context are '
+    'case-invariant (AS upper-cases arguments outside quotes when it is not case-sensitive), parameter names inside string '
+    'constants are written in upper case when AS is not case-sensitive, no expanded line longer than 250 characters',
     'two code files are equal when their sequences of data records (family, segment, granularity, address, bytes) and entry '
     'records are equal after merging adjacent records; the creator string is ignored',
+    'a construct program that reads more than 40x the lines of its hand expansion (hook H5 line budget) is reported as not ending',
 ]
 MANIFEST = dict(
     category='exploration', design_ref='DESIGN.md §4 C11',
@@ -42,10 +46,13 @@ MANIFEST = dict(
               'textual-substitution rules; both assembled by the real asl, code files compared record by record with an independent reader; '
               'disagreements are delta-reduced and keyed by the constructs left in the witness',
     text='Held on the executions of this run: generated programs on 6502, Z80 and 68000 (case-sensitive and not) using MACRO with 0..20 '
-         'parameters (positional, keyword, default, empty and excess arguments, ALLARGS, ARGCOUNT, ATTRIBUTE, SHIFT, EXITM, nested and '
-         'recursive calls, both concatenation forms, parameter names that are substrings of other identifiers, arguments that spell other '
-         'parameters\' names), REPT 0..40, IRP, IRPN 1..4 with ragged tails, IRPC, WHILE, INCLUDE, BINCLUDE with offset/length, '
-         '{GLOBALSYMBOLS} and private labels, up to 3 nesting levels, assembled to the same data records as their hand expansion.',
+         'parameters (positional, keyword, default, empty and excess arguments, ALLARGS, ARGCOUNT, ATTRIBUTE, SHIFT, EXITM also from nested IFs, '
+         'nested and recursive calls, macros defining macros, a macro overriding an instruction, both concatenation forms, parameter names '
+         'that are substrings of other identifiers or differ only in case under -U, arguments that spell other parameters\' names, '
+         'parameters inside string constants), REPT -3..40, IRP, IRPN 1..4 with ragged tails, IRPC (also empty), WHILE, constructs inside '
+         'taken and untaken IF/ELSE branches, INCLUDE (nested, from sub-directories, defining macros), BINCLUDE with offset/length '
+         '(also of nothing), {GLOBALSYMBOLS}, private labels with global namesakes, control characters in string constants, up to 3 '
+         'nesting levels, assembled to the same data records as their hand expansion.',
     note='Trusts vf/model/macroexp.py and vf/pfile.py.  Cases the manual leaves open are not generated (see ASSUMPTIONS). '
          'Only error-free programs: a hand expansion that asl rejects makes the case inconclusive, not a verdict.')
 REGISTERED = True
@@ -337,8 +344,10 @@ class Gen:
         lines = []
         namesake = False
         fwd = fwd_ok and rng.random() < 0.5
-        if private_ok and not fwd and rng.random() < 0.3:
-            namesake = True        # global label of the same name; then no forward reference (manual silent on lookup order)
+        if private_ok and rng.random() < 0.3:
+            # a global label of the same name exists as well: inside the body the name means the private label
+            # ("labels defined in macros always are regarded as being local"), outside it means the global one
+            namesake = True
         if fwd:
             lines.append(self.word_stmt([self.rc(name)]))
         lines.append('%s:' % name if rng.random() < 0.5 else '%s:%s' % (name, self.byte_stmt([self.hexlit(rng.randrange(256))])))
